@@ -22,11 +22,11 @@ RULE = (
 ASSUMPTIONS = [
     "os.stat is wrapped for paths under the harness tree (mtime = ctime = virtual time of the last modification)",
     "Last-Modified has one-second resolution: after a same-second size-changing rewrite a request carrying ONLY the old Last-Modified is not judged (no server can see that change through the date alone)",
-    "modifications are the three kinds at >= 1 s distance (the statement's own carve-out) plus the same-second size change",
+    "modifications are the three kinds at >= 1 s distance (the statement's own carve-out), the same-second size change, and the return of the original copy with its original modification time (change time = now)",
 ]
 DEPTH = {"quick": 3, "thorough": 4}
 T0 = 1_700_000_000.0
-MODS = [("same", 1.0), ("same", 3600.0), ("other", 0.0), ("other", 1.0), ("other", 3600.0), ("touch", 1.0), ("touch", 3600.0)]
+MODS = [("same", 1.0), ("same", 3600.0), ("other", 0.0), ("other", 1.0), ("other", 3600.0), ("touch", 1.0), ("touch", 3600.0), ("restore", 1.0)]
 FORMS = ["etag", "lm", "both", "list", "weak", "weak-list", "weak-list-nospace", "star"]
 
 
@@ -37,6 +37,7 @@ class VStat:
         self.root = os.path.realpath(root) + os.sep
         self.table = {}
         self.real = os.stat
+        self.hook = None
 
     def __call__(self, path, *a, **kw):
         st = self.real(path, *a, **kw)
@@ -45,16 +46,18 @@ class VStat:
         except Exception:
             p = None
         if p in self.table:
-            t = self.table[p]
+            mt, ct = self.table[p]
             red = st.__reduce__()
             seq = list(red[1][0])
             d = dict(red[1][1])
-            seq[8] = int(t)
-            seq[9] = int(t)
-            d["st_mtime"] = t
-            d["st_ctime"] = t
-            d["st_mtime_ns"] = int(t * 1e9)
-            d["st_ctime_ns"] = int(t * 1e9)
+            seq[8] = int(mt)
+            seq[9] = int(ct)
+            d["st_mtime"] = mt
+            d["st_ctime"] = ct
+            d["st_mtime_ns"] = int(mt * 1e9)
+            d["st_ctime_ns"] = int(ct * 1e9)
+            if self.hook is not None:
+                self.hook()
             return os.stat_result(tuple(seq), d)
         return st
 
@@ -68,22 +71,35 @@ class World:
         self.version = 0
         self.size = 8
         self.versions = []  # recorded validators per version index: dict or None
+        self.mtime = T0
+        self.original = None
         self._write()
+        self.original = (self.content(), self.size, self.mtime, self.version)
         os.stat = self.vstat
         from baize import wsgi as W, asgi as A
 
         self.apps = {("wsgi", "Files"): W.Files(self.dir), ("wsgi", "Pages"): W.Pages(self.dir), ("asgi", "Files"): A.Files(self.dir), ("asgi", "Pages"): A.Pages(self.dir)}
 
     def content(self):
+        if getattr(self, "restored", False):
+            return self.original[0]
         return (f"v{self.version:03d}-" + "x" * 64)[: self.size].encode()
 
-    def _write(self):
+    def _write(self, data=None):
         with open(self.path, "wb") as f:
-            f.write(self.content())
-        self.vstat.table[os.path.realpath(self.path)] = self.clock
+            f.write(self.content() if data is None else data)
+        self.vstat.table[os.path.realpath(self.path)] = (self.mtime, self.clock)
 
     def modify(self, kind, dt):
         self.clock += dt
+        if kind == "restore":
+            # an old copy comes back with its old modification time (cp -p, rsync -t): the change time is now
+            data, self.size, self.mtime, self.version = self.original
+            self.restored = True
+            self._write(data)
+            return
+        self.restored = False
+        self.mtime = self.clock
         self.version += 1
         if kind == "other":
             self.size += 1
@@ -91,7 +107,7 @@ class World:
             # content unchanged but a new version as far as validators go (timestamps moved)
             self.version -= 1
             self.touch_count = getattr(self, "touch_count", 0) + 1
-            self.vstat.table[os.path.realpath(self.path)] = self.clock
+            self.vstat.table[os.path.realpath(self.path)] = (self.mtime, self.clock)
             return
         self._write()
 
@@ -142,7 +158,7 @@ def run_history(hist, r, collect_only=False):
             if mi is not None:
                 kind, dt = MODS[mi]
                 w.modify(kind, dt)
-            state = (w.version, getattr(w, "touch_count", 0), w.clock, w.size)
+            state = (w.version, 0 if getattr(w, "restored", False) else getattr(w, "touch_count", 0), w.mtime, w.size)
             if not battery:
                 continue
             for key in w.apps:
@@ -155,13 +171,13 @@ def run_history(hist, r, collect_only=False):
                 if not et or not lm:
                     problems.append((si, key, "plain", f"200 without validators: etag={et!r} last-modified={lm!r}"))
                     continue
-                if lm != formatdate(w.clock, usegmt=True):
-                    problems.append((si, key, "plain", f"Last-Modified {lm!r} is not the file time {formatdate(w.clock, usegmt=True)!r}"))
+                if lm != formatdate(w.mtime, usegmt=True):
+                    problems.append((si, key, "plain", f"Last-Modified {lm!r} is not the file's modification time {formatdate(w.mtime, usegmt=True)!r}"))
                 for old in recorded[key]:
                     if old["state"] != state and old["etag"] == et and (old["state"][3] != state[3] or abs(old["state"][2] - state[2]) >= 1):
                         problems.append((si, key, "etag-reuse", f"version {state} has the same ETag as the different version {old['state']}"))
                 if not any(o["state"] == state for o in recorded[key]):
-                    recorded[key].append({"state": state, "etag": et, "lm": lm})
+                    recorded[key].append({"state": state, "etag": et, "lm": lm, "restored": getattr(w, "restored", False)})
                 for old in recorded[key]:
                     for form in FORMS:
                         res2 = w.request(key, validator_headers(form, old))
@@ -179,7 +195,7 @@ def run_history(hist, r, collect_only=False):
                             if form == "star":
                                 continue
                             if not unchanged:
-                                same_second = int(old["state"][2]) == int(state[2])
+                                same_second = int(old["state"][2]) == int(state[2]) and not getattr(w, "restored", False) and not old.get("restored")
                                 if form == "lm" and same_second:
                                     continue  # not visible through a date with one-second resolution
                                 problems.append((si, key, form, f"STALE 304: validators of version {old['state']} ({form}) accepted although the file is now {state}"))
@@ -208,13 +224,63 @@ def histories(depth):
             yield h
 
 
+def thread_pairs(r, kind, tier):
+    """Two WSGI requests on one long-lived Files/Pages object in two threads: request A carries stale (or no) validators, request B
+    the current ones or '*'. Every source line of the static-file modules is a scheduling point; all schedules with <= 1 (thorough 2)
+    preemptions. Each request must get what it gets alone."""
+    import sys
+    from ..core import vthreads as VT
+    from ..core.explore import dfs
+    from ..core.runner import REPO
+
+    files = [os.path.join(REPO, "baize", x) for x in ("staticfiles.py", "wsgi/staticfiles.py", "wsgi/responses.py", "responses.py")]
+    w = World()
+    try:
+        key = ("wsgi", kind)
+        first = w.request(key, [])
+        old = {"etag": first.header("etag"), "lm": first.header("last-modified")}
+        w.modify("other", 3600.0)
+        cur = w.request(key, [])
+        new = {"etag": cur.header("etag"), "lm": cur.header("last-modified")}
+        reqs = {
+            "stale-etag": validator_headers("etag", old), "stale-both": validator_headers("both", old), "stale-lm": validator_headers("lm", old), "none": [],
+            "current-etag": validator_headers("etag", new), "star": validator_headers("star", new), "current-lm": validator_headers("lm", new),
+        }
+
+        def obs(res):
+            return (res.status, res.body, res.header("etag"), type(res.exc).__name__ if res.exc else None)
+        solo = {k: obs(w.request(key, h)) for k, h in reqs.items()}
+        for a in ("stale-etag", "stale-both", "stale-lm", "none"):
+            for b in ("current-etag", "star", "current-lm"):
+                jobs = [lambda a=a: obs(w.request(key, reqs[a])), lambda b=b: obs(w.request(key, reqs[b]))]
+
+                def on_exec(x):
+                    r.count("evaluations")
+                    r.count("traces")
+                    r.count("transitions", len(x.choices))
+                    res = x.obs["results"]
+                    if x.obs["stuck"] or res != [solo[a], solo[b]]:
+                        which = 0 if res[0] != solo[a] else 1
+                        r.violation(f"threads:{kind}:{'stale-304' if (res[which] or (0,))[0] == 304 else 'differs'}", {"threads": kind, "a": a, "b": b, "schedule": list(x.choices)},
+                                    f"wsgi {kind}: request '{a}' and request '{b}' in two threads on one app object, schedule {x.obs['trace'][-12:]}: got {res!r:.200}, alone {[solo[a], solo[b]]!r:.200}")
+                dfs(lambda prefix: VT.run_thread_pair(prefix, jobs, files), on_exec, bound=1 if tier == "quick" else 2)
+                r.count("distinct_nontrivial")
+        r.count("states", 12)
+        r.sample({"threads": kind, "requests": ["stale-etag", "star"], "line_points_in": [os.path.relpath(f, REPO) for f in files]})
+    finally:
+        w.close()
+
+
 def shards(tier, seed):
     n = 32 if tier == "quick" else 64
-    return [("hist", k, n) for k in range(n)]
+    return [("hist", k, n) for k in range(n)] + [("threads", "Files"), ("threads", "Pages")]
 
 
 def run_shard(desc, tier):
     r = R()
+    if desc[0] == "threads":
+        thread_pairs(r, desc[1], tier)
+        return r
     _, k, n = desc
     states = set()
     for i, h in enumerate(histories(DEPTH[tier])):
@@ -242,6 +308,9 @@ def finish(merged, tier):
 
 def replay(w):
     r = R()
+    if "threads" in w:
+        thread_pairs(r, w["threads"], "quick")
+        return bool(r.viol), {"violations": sorted(r.viol), "texts": [v[2][:300] for v in r.viol.values()]}
     h = tuple((m, bool(b)) for m, b in w["history"])
     problems = run_history(h, r)
     hits = [p for p in problems if list(p[1]) == w["app"] and p[2] == w["form"]]
